@@ -295,4 +295,16 @@ theorem batch_location_watches_call_context_in_source :
     GV.Gen.Exits.findClientsWithCancel = ["rctx, cancel = WithCancel(ctx)"] ∧
     GV.Gen.Exits.findClientsAfterFunc = ["rpc.Context(), cancel"] := by decide
 
+/-- Regenerated from rpc.go (`SendBatch`, fixes 38f0b98 and 8ad70df): the two other places where a
+batch waits — handing a group of calls to a region client whose send queue is busy
+(`QueueBatch`) and the back-off sleep between rounds — wait under a context made by
+`contextOfCalls` from the batch context and the calls concerned: it ends when the batch context
+ends or when the own context of every one of those calls has ended (`Round.gaveUp` /
+`Event.sleepLeft` in `Model/Batch.lean` for the sleep). Together with
+`batch_location_watches_call_context_in_source` (region location) and
+`batch_wait_watches_call_context` (the wait for the response) these are all the waits of SendBatch. -/
+theorem batch_queue_and_sleep_watch_call_contexts_in_source :
+    GV.Gen.Exits.sendBatchWaitContexts =
+      ["QueueBatch:contextOfCalls(ctx, rpcs)", "sleepAndIncreaseBackoff:contextOfCalls(ctx, retries)"] := by decide
+
 end GV.Cancel
